@@ -14,10 +14,11 @@ LEAN = os.path.join(os.path.dirname(os.path.dirname(os.path.dirname(os.path.absp
 
 CLAUSES = ["typedNodeSound", "typedNodeComplete", "typedLinkSound", "typedLinkComplete", "typedCurveSound", "endsExist",
            "usageNodeSound", "usageNodeLinks", "usageNodeSources", "usagePatSound", "usagePatNodes", "usagePatLinks",
-           "usagePatSources", "usageCurveSound", "usageCurveNodes", "usageCurveLinks", "usageObjSound"]
+           "usagePatSources", "usageCurveSound", "usageCurveNodes", "usageCurveLinks"]
 
-SETF = "fam_of_mem_linkSets"
+SETF = "fam_of_mem_linkSets, fam_curveSet, fam_nodeSet"
 KINDF = "isLinkType_ltype, ltype_ne_source, ltype_pump, ltype_valve, isPump_iff, nodePatUser_some, isLinkType_iff"
+TABLE = {c: ("set_tables" if c.startswith("typed") else "kind_tables") for c in CLAUSES}
 FACTS = {c: (SETF if c.startswith("typed") else KINDF) for c in CLAUSES}
 
 HN_NODE = "(hn : AL.get? s.nodes n = none)"
@@ -86,10 +87,11 @@ def theorem(op, clause):
     lines.append("  clear h")
     lines.append("  unfold %sR" % op)
     if mid:
-        close = CUSTOM.get((op, clause), "reg_norm; grind [%s]" % FACTS[clause])
+        close = CUSTOM.get((op, clause), "reg_norm; have tb := %s; grind [%s]" % (TABLE[clause], FACTS[clause]))
         lines.append("  %s <;> (%s)" % (mid, close))
     else:
         lines.append("  reg_norm")
+        lines.append("  have tb := %s" % TABLE[clause])
         lines.append("  " + CUSTOM.get((op, clause), "grind [%s]" % FACTS[clause]))
     return "\n".join(lines)
 
